@@ -7,7 +7,7 @@
    events. *)
 From Coq Require Import List String NArith Arith Bool.
 From YVGen Require Import Consts ImportArms.
-From YV Require Import Modules ModuleSpec ModLang ModulesProofs ModRefine.
+From YV Require Import Modules ModuleSpec ModLang ModulesProofs ModulesScaleProofs ModRefine.
 Import ListNotations.
 Open Scope string_scope.
 
@@ -234,6 +234,15 @@ Section Oracles.
     /\ active st' = List.length (heap st)
     /\ forall c, ~ In c B -> alookup (attrs_of st' (List.length (heap st))) c = None.
   Proof. exact (fresh_module_has_only_builtins SrcId Body loader compiler B FM CHK GRD). Qed.
+  (* round 9: an import does not depend on the history of the run - after ANY event sequence (any number of failed, refused,
+     cached or successful imports before it) a path the registry does not know, delivered by the loader, accepted by the
+     compiler, with a frame to spare, enters its body in a new module object *)
+  Theorem C14_fresh_import_enters_body_after_any_history : forall evs p src body,
+    let st := runM init evs in
+    dead st = None -> alookup (reg st) p = None -> loader p = LoadOk src -> compiler p src = CompOk body ->
+    fiber_depth (frames st) <> FM ->
+    exists st', stepM st (EStartImport p) = (st', OEntered (List.length (heap st)) body).
+  Proof. exact (fun evs => fresh_import_enters_body_in_any_state SrcId Body loader compiler B FM CHK GRD CHAIN (runM init evs)). Qed.
 End Oracles.
 
 (* --- what the translator read from the current sources agrees with what Modules.v hard-wires --- *)
@@ -275,6 +284,19 @@ Theorem C14_side_frame_switch_sites :
    ("load_fiber()", ["execute"]); ("unload_fiber()", ["return_impl"])]
   /\ gen_fiber_switch_then_loads = true /\ gen_return_finished_fiber_unloads = true.
 Proof. vm_compute; repeat split; reflexivity. Qed.
+(* round 9: census of the import path.  Modules.v gives an import no state beyond registry, module objects, frames, handlers
+   and `active`, three ways to fail before the body (cycle, loader, compiler) plus the frame limit inside call_value, and
+   built-ins that come from the VM alone.  The table lists every `self.<name>` the three functions mention and the number of
+   `error!(` / `try_handle_error(` / `return` sites of start_import_impl: a counter / cache / flag consulted or updated by an
+   import, one more refusal arm, a look into another module's globals while a module gets its built-ins - each changes it *)
+Theorem C14_side_import_census :
+  gen_import_census =
+  [("start_import_impl", ["active_module"; "call_value"; "init_built_in_globals"; "is_loading_module"; "module"; "module_loader";
+                          "modules"; "new_root_obj_closure"; "peek"; "push"; "read_string"; "try_handle_error"]);
+   ("finish_import_impl", ["peek"; "pop"]);
+   ("init_built_in_globals", ["class_store"; "define_native"; "printer"; "set_global"; "string_class"])]
+  /\ gen_import_exit_counts = ["2"; "3"; "4"].
+Proof. vm_compute; split; reflexivity. Qed.
 (* the built-in file loader (default_read_module_source, used when the host installs none): the file is
    Path(path).with_extension("yl"); EVERY failure of fs::read_to_string is an ImportError
    "Unable to read file '<file>' (<reason>)." - reason by io::ErrorKind, "other" for the kinds not listed; the host loader
@@ -462,6 +484,8 @@ Print Assumptions C14_side_main_literal.
 Print Assumptions C14_side_import_shape.
 Print Assumptions C14_side_active_module_sites.
 Print Assumptions C14_side_frame_switch_sites.
+Print Assumptions C14_side_import_census.
+Print Assumptions C14_fresh_import_enters_body_after_any_history.
 Print Assumptions C14_generator_fiber_keeps_module_globals.
 Print Assumptions C14_side_builtin_names_known.
 Print Assumptions C14_side_default_loader.
